@@ -30,7 +30,8 @@ type Step struct {
 // Pass records one baton pass.
 type Pass struct {
 	From, To int
-	Site     int // yield site at which From was preempted; -1 = task finished
+	Site     int  // yield site at which From was preempted; -1 = task finished
+	Blocked  bool // From found a lock taken at Site (a TryLock loop of instrumented code) and handed the baton on
 }
 
 // MaxTasks bounds the number of tasks.
@@ -59,7 +60,25 @@ type Sched struct {
 	// checked, but its interleaving was not decided by the plan.
 	Aborted bool
 	abort   bool
+	// lock-aware scheduling: instrumented "X.Lock()" statements spin on TryLock and call blocked() each time the lock
+	// is taken. blockedNow[i] = task i found its lock taken and nobody has made progress since. When every unfinished
+	// task is in that state no baton pass can ever help: Deadlock is set (with the sites), and the tasks are unwound by
+	// a DeadlockPanic so that the run ends.
+	blockedNow      [MaxTasks]bool
+	lastBlockedSite [MaxTasks]int
+	allRounds       int
+	allSince        time.Time
+	nBlocked        int
+	Deadlock        bool
+	DeadlockAt      []int // per task: the site it was blocked at (-1 = not blocked / finished)
+	BlockedPasses   int
 }
+
+// DeadlockGrace is how long "every unfinished task waits for a lock" must persist before it is called a deadlock.
+var DeadlockGrace = 2 * time.Second
+
+// DeadlockPanic is what a task is unwound with once the scheduler has established a deadlock.
+type DeadlockPanic struct{ Site int }
 
 // New returns a scheduler for a plan.
 func New(plan []Step) *Sched { return &Sched{cur: -1, plan: plan} }
@@ -123,6 +142,12 @@ func (s *Sched) yield(site int) {
 		s.First[site] = int32(s.Yields)
 	}
 	s.Yields++
+	if s.nBlocked != 0 {
+		// somebody made progress: locks may have been released since
+		s.blockedNow = [MaxTasks]bool{}
+		s.nBlocked = 0
+		s.allRounds = 0
+	}
 	if s.left > 0 {
 		s.left--
 		return
@@ -147,10 +172,96 @@ func (s *Sched) yield(site int) {
 	s.wait(me)
 }
 
+// blocked is installed as simhook.BlockedHook: the running task found the lock it wants taken. The baton goes to the
+// next unfinished task in cyclic order (the plan is not consumed: this pass is forced, not drawn).
+//
+//go:norace
+func (s *Sched) blocked(site int) {
+	if !s.active || s.abort {
+		runtime.Gosched()
+		return
+	}
+	me := s.cur
+	if me < 0 {
+		runtime.Gosched()
+		return
+	}
+	if s.Deadlock {
+		panic(DeadlockPanic{Site: site})
+	}
+	if !s.blockedNow[me] {
+		s.blockedNow[me] = true
+		s.nBlocked++
+	}
+	var cand [MaxTasks]int
+	k := s.others(me, &cand)
+	all := true
+	for i := 0; i < k; i++ {
+		if !s.blockedNow[cand[i]] {
+			all = false
+		}
+	}
+	s.lastBlockedSite[me] = site
+	if all {
+		// Every unfinished task (possibly only this one) waits for a lock and none of them has moved since. If only
+		// tasks can hold locks this is a deadlock already; a goroutine the library started itself may still be about to
+		// release one, so the verdict also needs the state to persist (2 s and 1000 rounds of everybody retrying, with
+		// the processor offered to other goroutines in between).
+		if s.allRounds == 0 {
+			s.allSince = time.Now()
+		}
+		s.allRounds++
+		if s.allRounds >= 1000 && time.Since(s.allSince) >= DeadlockGrace {
+			s.Deadlock = true
+			s.DeadlockAt = make([]int, s.n)
+			for i := range s.DeadlockAt {
+				s.DeadlockAt[i] = -1
+			}
+			s.DeadlockAt[me] = site
+			for i := 0; i < k; i++ {
+				s.DeadlockAt[cand[i]] = s.lastBlockedSite[cand[i]]
+			}
+			panic(DeadlockPanic{Site: site})
+		}
+		runtime.Gosched()
+		if k == 0 {
+			return // retry
+		}
+	}
+	to := cand[0]
+	for i := 0; i < k; i++ {
+		if cand[i] > me {
+			to = cand[i]
+			break
+		}
+	}
+	s.BlockedPasses++
+	if !all && len(s.Trace) < 1<<16 {
+		s.Trace = append(s.Trace, Pass{From: me, To: to, Site: site, Blocked: true})
+	}
+	if !all && s.OnPass != nil {
+		s.OnPass(me, to, site)
+	}
+	s.cur = to
+	s.wait(me)
+}
+
 //go:norace
 func (s *Sched) finish(me int, panicked any) {
 	if panicked != nil {
-		s.Panics = append(s.Panics, panicked)
+		if _, dl := panicked.(DeadlockPanic); !dl {
+			s.Panics = append(s.Panics, panicked)
+		}
+	}
+	if s.blockedNow[me] {
+		s.blockedNow[me] = false
+		s.nBlocked--
+	}
+	if s.nBlocked != 0 && !s.Deadlock {
+		// a finishing task has run its deferred unlocks
+		s.blockedNow = [MaxTasks]bool{}
+		s.nBlocked = 0
+		s.allRounds = 0
 	}
 	s.done[me] = true
 	var cand [MaxTasks]int
@@ -192,6 +303,7 @@ func (s *Sched) Run(tasks []func()) {
 		s.left = s.plan[0].RunFor
 	}
 	simhook.Hook = s.yield
+	simhook.BlockedHook = s.blocked
 	finished := make([]chan struct{}, s.n)
 	s.active = true
 	for i := range tasks {
@@ -225,6 +337,7 @@ func (s *Sched) Run(tasks []func()) {
 	}
 	s.active = false
 	simhook.Hook = nil
+	simhook.BlockedHook = nil
 }
 
 //go:norace
